@@ -11,6 +11,7 @@ from mc.model import Schema
 from mc.oracle import div
 
 ID = "C16"
+CHUNK = 100
 RULE = ("states = (multiset of <=N respondents, config) on CAT/MR pairings in 2-D and 3-D with the "
         "missing category of every dimension at every payload position; non-trivial = some cell "
         "has a finite index AND some respondent has a missing column answer; distinct = distinct "
